@@ -1277,6 +1277,84 @@ def run_rx(ctx, h, model, cases, nproc=16):
     return len(found)
 
 
+PRE_PIECES = [[0x61], [0x2D], [0xE9], [0x20AC], [0x5C, 0x5C], [0x5C, 0x2D], [0x1F600], [0x1D4B3],
+              [0x5C, 0x75, 0x30, 0x30, 0x36, 0x32], [0x5C, 0x75, 0x64, 0x38, 0x33, 0x64], [0x5C, 0x1F600], [0x5C, 0x5C, 0x1F600], [0x62, 0x1F600]]
+
+
+def runes_to_units(runes):
+    out = []
+    for r in runes:
+        if r > 0xFFFF:
+            out += [0xD800 + ((r - 0x10000) >> 10), 0xDC00 + ((r - 0x10000) & 0x3FF)]
+        else:
+            out.append(r)
+    return out
+
+
+def find_sub(hay, needle):
+    for i in range(len(hay) - len(needle) + 1):
+        if hay[i:i + len(needle)] == needle:
+            return i
+    return None
+
+
+def run_pre(ctx, h, model, n):
+    """Pattern pre-processing of non-unicode regexps (convertRegexpToUtf16): literal patterns over plain characters, `\\\\`,
+    `\\-`, `\\uXXXX`, astral characters and a backslash before an astral character.  The Lean model gives the converted
+    source and the code units it matches (mechanism) and the code units the original matches per ECMA-262 (spec); goja must
+    match exactly the mechanism's units; where mechanism and spec differ it is the known pre-processing finding."""
+    if not model:
+        return
+    rng = ctx.rng
+    pats = [[0x5C, 0x1F600], [0x5C, 0x5C, 0x1F600], [0x61, 0x1F600], [0x5C, 0x5C, 0x5C, 0x1F600]]
+    for _ in range(n):
+        k = rng.choice([1, 2, 2, 3, 3, 4, 5])
+        pats.append([r for _ in range(k) for r in rng.choice(PRE_PIECES)])
+    mo = run_sharded([model], ["pre16 " + ".".join("%x" % r for r in p) for p in pats], 2, 300, 60)
+    lines, meta = [], []
+    for p, o in zip(pats, mo):
+        if o is None:
+            continue
+        d = dict(x.split("=", 1) for x in o.split()[1:])
+        if d["mech"] == "x" or d["spec"] == "x":
+            continue
+        mech = [] if d["mech"] == "-" else [int(d["mech"][i:i + 4], 16) for i in range(0, len(d["mech"]), 4)]
+        spec = [] if d["spec"] == "-" else [int(d["spec"][i:i + 4], 16) for i in range(0, len(d["spec"]), 4)]
+        for subj in ([mech] if mech == spec else [mech, spec]):
+            c = {"id": "pre", "flags": "", "subject": subj, "starts": [0], "limit": 1, "template": "", "modes": "gexec"}
+            lines.append("rx pre:base %s - %s 0 1 - gexec" % (hx(runes_to_units(p)), hx(subj)))
+            meta.append((p, mech, spec, subj))
+    outs = run_sharded([h], lines, 8, max(600, 5 * len(lines)), 120)
+    st = ctx.stats.setdefault("pre16", {"patterns": len(pats), "lines": 0, "mech_ne_spec": 0})
+    bad = 0
+    for (p, mech, spec, subj), o in zip(meta, outs):
+        if o is None:
+            continue
+        st["lines"] += 1
+        ctx.count(1)
+        d = parse_rx(o)
+        src = "".join(chr(r) for r in p)
+        if "tbl" not in d:
+            bad += 1
+            ctx.violation("pre:glue:no-table", "literal pattern %r: %s" % (src, d.get("eng")), {"kind": "input", "ops": [o[:200]], "pattern_runes": p})
+            continue
+        row0 = rows_of(d["tbl"])[0]
+        got = None if row0 is None else row0[0][:2]
+        at = find_sub(subj, mech)
+        exp = None if at is None else [at, at + len(mech)]
+        if got != exp:
+            bad += 1
+            ctx.violation("pre:glue:unexplained", "non-unicode literal pattern %r on %s: mechanism model (convertRegexpToUtf16) predicts %s, implementation %s" % (src, hx(subj), exp, got),
+                          {"kind": "input", "line": "rx pre:base %s - %s 0 1 - gexec" % (hx(runes_to_units(p)), hx(subj)), "pattern_runes": p, "expected": exp, "observed": got})
+        if mech != spec and subj == spec:
+            st["mech_ne_spec"] += 1
+            ctx.nontriv(["pre", p])
+            if got != [0, len(spec)]:
+                ctx.violation("pre:escaped-astral-nonunicode", "/%s/ (no u flag) must match %s entirely (ECMA-262: code-unit pattern), goja matches %s there; the converted source matches %s instead" % (
+                    src, hx(spec), got, hx(mech)), {"kind": "input", "line": "rx pre:base %s - %s 0 1 - gexec" % (hx(runes_to_units(p)), hx(spec)), "pattern_runes": p, "spec_units": spec, "mechanism_units": mech})
+    ctx.obligation("corr:pre16 convertRegexpToUtf16 model = implementation on literal patterns", "correspondence", bad == 0, "%d disagreements" % bad)
+
+
 def run_syntax(ctx, h):
     """invalid patterns / flags must raise SyntaxError whatever the engine; valid ones must not."""
     lines, expect = [], []
@@ -1301,8 +1379,9 @@ def run_syntax(ctx, h):
 
 def main(ctx):
     regen_ok = ctx.regen()
-    lean_ok, errs = ctx.lake_build(["GojaModel.C20.Props", "GojaModel.C20.Tie", "model_c20"])
+    lean_ok, errs = ctx.lake_build(["GojaModel.C20.Props", "GojaModel.C20.PreProps", "GojaModel.C20.Tie", "model_c20"])
     ctx.audit("GojaModel.C20.Props", expect_min=33)
+    ctx.audit("GojaModel.C20.PreProps", expect_min=7)
     ctx.audit("GojaModel.C20.Tie", expect_min=5)
     if ctx.tier == "thorough":
         ctx.leanchecker("GojaModel.C20.Props")
@@ -1342,6 +1421,7 @@ def main(ctx):
     ctx.log("small ops done, %d bad" % n_bad)
     ctx.obligation("corr:posmap-flags-advance (model = implementation, flags exhaustive up to length 3)", "correspondence", n_bad == 0, "%d disagreements" % n_bad)
     run_syntax(ctx, h)
+    run_pre(ctx, h, model, 300 if thorough else 80)
 
     # ---- rx: corpus first, then generated (70 % outside the circumstances of the known divergences)
     n_cases = 1200 if thorough else 220
